@@ -235,8 +235,8 @@ def item_parts(it):
             parts.append("self=%s on %s%s" % (sf, okind, "<'a>" if m["olt"] else ""))
         if not m["selff"] and m["owner"] != "Op":
             parts.append("static method on %s%s" % ({"opaque": "Opaque", "struct": "Struct", "outstruct": "OutStruct", "enum": "Enum"}[m["okind"]], "<'a>" if m["olt"] else ""))
-        for _, t in m["params"]:
-            parts.append("param=%s" % shape(t, flow))
+        for ps in sorted("param=%s" % shape(t, flow) for _, t in m["params"]):     # the label does not depend on parameter order
+            parts.append(ps)
         if m["ret"] is not None:
             parts.append("ret=%s" % shape(m["ret"], flow))
         if m["attr"]:
@@ -668,6 +668,15 @@ def fam_c(b, thorough):
         for p in SELF_PARAMS:
             for r in rets:
                 b.add("c", m=method(b.mname(), owner=owner, okind=okind, olt=olt, selff=selff, params=[("x", p)] if p is not None else [], ret=r), pos="self")
+    # parameter i of n: every ordered pair over the non-callback parameter alphabet (+ one callback), plus a third trailing parameter
+    two = [p for p in SELF_PARAMS if p is not None and p[0] != "cb" and p != ("ref", True, ("write",))] + [("dopt", N("St")), ("opt", ("ref", False, ("str", "str"))), G.CALLBACKS[2]]
+    if not thorough:
+        two = [("ref", False, ("slice", "u8")), ("opt", ("ref", False, ("slice", "u8"))), ("ref", False, ("str", "str")), ("opt", OP_REF), N("St"), ("opt", N("St")), N("SB")]
+    if True:
+        for p1 in two:
+            for p2 in two:
+                b.add("c", m=method(b.mname(), selff="&self", params=[("x", p1), ("y", p2)], ret=P("u8")), pos="two params")
+            b.add("c", m=method(b.mname(), selff="&self", params=[("x", p1), ("y", P("f64")), ("z", p1), ("w", ("ref", True, ("write",)))]), pos="three params and write")
     cbs = [G.CALLBACKS[1], G.CALLBACKS[2], G.CALLBACKS[4], G.CALLBACKS[7]]
     for selff in (None, "&self"):
         for c1 in cbs:
